@@ -1,6 +1,6 @@
 ---- MODULE TraceCpca ----
 (* Trace specification for C09, recorded by c09_drv.c.                                                                *)
-(* One model = Reset, Fit, Spectrum, Shares, Oracle, then per component k: Cpca, Truth, PcaRef.                       *)
+(* One model = Reset, Fit, Spectrum, Shares, Oracle, then per component k: Cpca, Truth, PcaRef; scaling 0: a final Scale. *)
 (* From the logged oracle spectrum TLC computes the number of separated leading components and two bound sequences:   *)
 (* for CPCA's criterion (eps = sqrt(n*1e-18), floor 1e-7) and for PCA's (eps = sqrt(n*1e-10)).                         *)
 EXTENDS Cpca, TraceBase
@@ -61,7 +61,12 @@ TPcaRef == /\ l <= Len(Tr) /\ Ev.e = "PcaRef" /\ Step /\ cphase = "PcaRef" /\ Ev
            /\ cphase' = "Comp"
            /\ UNCHANGED <<cn, nb, cnpc, ck, prevBlock, share, lastTotal, sumTotal, curTotal, sig, ncmp, bTc, bTp>>
 
-TNext == TReset \/ TDropped \/ TFit \/ TSpectrum \/ TShares \/ TOracle \/ TCpca \/ TTruth \/ TPcaRef
+TScale == /\ l <= Len(Tr) /\ Ev.e = "Scale" /\ Step /\ cphase = "Comp" /\ ck = cnpc
+          /\ Len(Ev.terr) = cnpc
+          /\ PropScale(cn, sig, ncmp, bTc, Ev)
+          /\ UNCHANGED <<cn, nb, cnpc, ck, prevBlock, share, lastTotal, sumTotal, curTotal, cphase, sig, ncmp, bTc, bTp>>
+
+TNext == TScale \/ TReset \/ TDropped \/ TFit \/ TSpectrum \/ TShares \/ TOracle \/ TCpca \/ TTruth \/ TPcaRef
 TSpec == TInit /\ [][TNext]_tvars
 TraceAccepted == Accepted
 Diag == ShowCursor(l)
